@@ -112,9 +112,15 @@ Print Assumptions C15_gate_script_denied.
 Example C15_messages_match_source : map verr_message all_verrs = validate_messages.
 Proof. vm_compute. reflexivity. Qed.
 
-Example C15_default_caps_wf_bool :
-  forallb (fun x => (0 <=? x) && (x <=? cap_type_max)) (caps_fields default_caps) = true.
-Proof. vm_compute. reflexivity. Qed.
+(* the hypotheses of the theorems above hold for the shipped defaults and for every builder a
+   script can construct *)
+Theorem C15_default_caps_wf : caps_wf default_caps.
+Proof. exact default_caps_wf. Qed.
+Print Assumptions C15_default_caps_wf.
+
+Theorem C15_script_builders_wf : forall p cs, command_wf (view (command_new p) cs).
+Proof. exact (fun p cs => view_wf (command_new p) cs (command_new_wf p)). Qed.
+Print Assumptions C15_script_builders_wf.
 
 (* ------------------------------------------------------------------ non-vacuity *)
 
